@@ -427,9 +427,51 @@ def check_c03(tier, seed):
             os.remove(v["replay"])
         except OSError:
             pass
+    # big-tree layer: the controlled histories stop at a few hundred elements; sizes beyond that
+    # (position arithmetic, depth, anything with a threshold at 2^8, 2^15, 2^16 ...) are exercised
+    # by real-priority histories whose final sequence is compared with a closed form or with an
+    # exact vector replay; only the functional verdicts count for C03 here
+    from concurrent.futures import ThreadPoolExecutor
+
+    rbin, bs2 = cargo_build("treapsim", "sim-rel")
+    build_s += bs2
+    rng = PyRng(seed ^ 0x3C03)
+    big_cfgs = []
+    for h in range(N_HISTORIES):
+        big_cfgs.append({"history": h, "n": 20_000, "mode": 0, "stride": 1, "seed": rng.next() % (1 << 48)})
+        big_cfgs.append({"history": h, "n": 100_000 if tier == "quick" else 300_000, "mode": 0, "stride": 1, "seed": rng.next() % (1 << 48)})
+    if tier == "thorough":
+        for h in (0, 1, 2, 5, 7, 10):
+            big_cfgs.append({"history": h, "n": 1_000_000, "mode": 0, "stride": 1, "seed": rng.next() % (1 << 48)})
+    with ThreadPoolExecutor(max_workers=workers()) as ex:
+        big = list(ex.map(lambda cfg: real_run(rbin, cfg), big_cfgs))
+    seen = set()
+    for r in big:
+        cfg = r["cfg"]
+        if "crash" in r:
+            cls, detail = "treap/crash/history%d/" % cfg["history"], "real-priority run %r terminated abnormally: %s" % (cfg, r["crash"])
+        elif r.get("violation") and r["violation"]["class"].split("/")[1] in ("functional", "size"):
+            cls, detail = r["violation"]["class"], r["violation"]["detail"]
+        else:
+            continue
+        if cls in seen:
+            continue
+        seen.add(cls)
+        small = minimise_real(rbin, cfg, cls)
+        path = os.path.join(REPLAYS, "C03-real-%d-h%d-n%d.json" % (seed, small["history"], small["n"]))
+        rec = real_record(small, {"class": cls, "detail": detail})
+        rec["property"] = "C03"
+        with open(path, "w") as f:
+            json.dump(rec, f, indent=1)
+        mine.append({"class": cls, "detail": detail, "replay": path})
     real = settle("C03", mine, treap_replay)
     wall = time.time() - t0
     cov = ctl_coverage(c)
+    cov["big_tree_layer"] = {
+        "what": "real-priority histories (all %d kinds) at n = 20000 and n = %d%s; final in-order sequence compared with a closed form or an exact vector replay of the logged operations, sizes and removed elements checked" % (N_HISTORIES, 100_000 if tier == "quick" else 300_000, " plus six at n = 10^6" if tier == "thorough" else ""),
+        "process_runs": len(big),
+        "largest_n": max([r.get("final_n", 0) for r in big if "crash" not in r] or [0]),
+    }
     cov.update({
         "evaluations": c["runs"],
         "distinct_nontrivial": c["distinct_states"],
